@@ -273,6 +273,8 @@ static int uriClient_setService(KSI_NetworkClient *client, const char *uri, cons
 	uri_client = client->impl;
 
 	res = client->uriSplit(uri, &schm, &ksi_user, &ksi_pass, &host, &port, &path, &query, &fragment);
+	/* Only an URI that can not be parsed is passed on as it is. */
+	if (res == KSI_OUT_OF_MEMORY) goto cleanup;
 	if (res != KSI_OK) unableToParse = 1;
 
 	c = client->getClientByUriScheme(schm, &replace);
